@@ -825,6 +825,107 @@ theorem ringInterior_second (total : Nat → Rat) (ca : Nat → Nat → Option R
   unfold ringStepI dset
   simp
 
+/-! ## round 7: the ring loops in closed form -/
+/-- sum of the corner angles met before `w` on the ring -/
+def prefixBefore (ca : Nat → Nat → Option Rat) (u : Nat) : List Nat → Nat → Rat
+  | [], _ => 0
+  | v :: rest, w => if v = w then 0 else (ca u v).getD 0 + prefixBefore ca u rest w
+
+theorem prefixBefore_cons_ne (ca : Nat → Nat → Option Rat) (u v w : Nat) (rest : List Nat) (h : ¬ v = w) :
+    prefixBefore ca u (v :: rest) w = (ca u v).getD 0 + prefixBefore ca u rest w := by
+  show (if v = w then 0 else (ca u v).getD 0 + prefixBefore ca u rest w) = _
+  rw [if_neg h]
+
+def sumAngles (ca : Nat → Nat → Option Rat) (u : Nat) (ring : List Nat) : Rat := (ring.map (fun v => (ca u v).getD 0)).sum
+
+def ringStepF (total : Nat → Rat) (ca : Nat → Nat → Option Rat) (u : Nat) (dfct : Rat) (st : Dict × Rat) (v : Nat) : Dict × Rat :=
+  (dset st.1 u v ((st.2 * dfct) / total u), st.2 + (ca u v).getD 0)
+
+theorem ringFeature_eq (total : Nat → Rat) (ca : Nat → Nat → Option Rat) (u : Nat) (dfct : Rat) (ring : List Nat) (d : Dict) (a : Rat) :
+    C18S.connVertsRingFeature total ca u dfct ring d a = (ring.foldl (ringStepF total ca u dfct) (d, a)).1 := by
+  unfold C18S.connVertsRingFeature
+  congr 2
+  funext st v
+  unfold ringStepF
+  cases ca u v <;> simp
+
+theorem ringStepF_keep (total : Nat → Rat) (ca : Nat → Nat → Option Rat) (u w : Nat) (dfct : Rat) : ∀ (ring : List Nat) (st : Dict × Rat), w ∉ ring →
+    (ring.foldl (ringStepF total ca u dfct) st).1 u w = st.1 u w
+  | [], _, _ => rfl
+  | v :: rest, st, h => by
+    simp only [List.foldl_cons]
+    rw [ringStepF_keep total ca u w dfct rest _ (fun hm => h (List.mem_cons_of_mem _ hm))]
+    have hne : w ≠ v := fun e => h (by simp [e])
+    unfold ringStepF dset
+    simp [hne]
+
+theorem ringF_closed_form (total : Nat → Rat) (ca : Nat → Nat → Option Rat) (u w : Nat) (dfct : Rat) : ∀ (ring : List Nat) (st : Dict × Rat),
+    ring.Nodup → w ∈ ring → (ring.foldl (ringStepF total ca u dfct) st).1 u w = ((st.2 + prefixBefore ca u ring w) * dfct) / total u
+  | [], _, _, h => by simp at h
+  | v :: rest, st, hnd, hw => by
+    have hnd' := List.nodup_cons.mp hnd
+    simp only [List.foldl_cons]
+    by_cases hv : v = w
+    · subst hv
+      rw [ringStepF_keep total ca u v dfct rest _ hnd'.1]
+      unfold ringStepF dset prefixBefore
+      simp
+    · have hw' : w ∈ rest := by
+        rcases List.mem_cons.mp hw with h | h
+        · exact absurd h.symm hv
+        · exact h
+      rw [ringF_closed_form total ca u w dfct rest _ hnd'.2 hw']
+      rw [prefixBefore_cons_ne ca u v w rest hv]
+      unfold ringStepF
+      simp only []
+      ring
+
+theorem ringI_closed_form (total : Nat → Rat) (ca : Nat → Nat → Option Rat) (u w : Nat) : ∀ (ring : List Nat) (st : Dict × Rat),
+    ring.Nodup → w ∈ ring → (ring.foldl (ringStepI total ca u) st).1 u w = (((st.2 + prefixBefore ca u ring w) * 2) * (1 / 2)) / total u
+  | [], _, _, h => by simp at h
+  | v :: rest, st, hnd, hw => by
+    have hnd' := List.nodup_cons.mp hnd
+    simp only [List.foldl_cons]
+    by_cases hv : v = w
+    · subst hv
+      rw [ringStepI_keep total ca u v rest _ hnd'.1]
+      unfold ringStepI dset prefixBefore
+      simp
+    · have hw' : w ∈ rest := by
+        rcases List.mem_cons.mp hw with h | h
+        · exact absurd h.symm hv
+        · exact h
+      rw [ringI_closed_form total ca u w rest _ hnd'.2 hw']
+      rw [prefixBefore_cons_ne ca u v w rest hv]
+      unfold ringStepI
+      simp only []
+      ring
+
+theorem prefixBefore_last (ca : Nat → Nat → Option Rat) (u w : Nat) : ∀ (pre : List Nat), w ∉ pre →
+    prefixBefore ca u (pre ++ [w]) w = sumAngles ca u pre
+  | [], _ => by simp [prefixBefore, sumAngles]
+  | v :: rest, h => by
+    have hne : v ≠ w := fun e => h (by simp [e])
+    have ih := prefixBefore_last ca u w rest (fun hm => h (List.mem_cons_of_mem _ hm))
+    simp only [List.cons_append, prefixBefore, hne, if_false, ih, sumAngles, List.map_cons, List.sum_cons]
+
+/-! ## round 7: the defect loop of the vertex-based `_initialize_attributes` -/
+theorem getD_set_eq_rat (l : List Rat) (i : Nat) (x : Rat) (h : i < l.length) : (l.set i x).getD i 0 = x := by
+  simp [List.getD, h]
+theorem getD_set_ne_rat (l : List Rat) (i j : Nat) (x : Rat) (h : j ≠ i) : (l.set j x).getD i 0 = l.getD i 0 := by
+  simp [List.getD, List.getElem?_set, h]
+
+theorem defect_fold (angles : Nat → Rat) (v : Nat) : ∀ (l : List (Nat × Nat)) (d : List Rat), v < d.length →
+    (l.foldl (fun d it => d.set it.2 (d.getD it.2 0 + angles it.1)) d).getD v 0
+      = d.getD v 0 + (l.map (fun it => if it.2 = v then angles it.1 else 0)).sum
+  | [], d, _ => by simp
+  | it :: rest, d, h => by
+    simp only [List.foldl_cons, List.map_cons, List.sum_cons]
+    rw [defect_fold angles v rest _ (by rw [List.length_set]; exact h)]
+    by_cases hv : it.2 = v
+    · rw [hv, getD_set_eq_rat _ _ _ h]; simp; ring
+    · rw [getD_set_ne_rat _ _ _ _ hv]; simp [hv]
+
 /-! ## round 6: export_as_mesh -/
 theorem exportEdges_mem (order n : Nat) (g : Nat → List (Nat × Nat)) (per : Nat)
     (hg : ∀ i, ∀ e ∈ g i, e.1 < per * (i + 1) ∧ e.2 < per * (i + 1)) :
